@@ -1057,8 +1057,15 @@ class Process(StateMachine, persistence.Savable, metaclass=ProcessStateMachineMe
                         f'Full Traceback:\n{tb_str}'
                     ) from exc
                 else:
-                    while asyncio.isfuture(result):
-                        result = await result
+                    try:
+                        while asyncio.isfuture(result):
+                            result = await result
+                    except asyncio.CancelledError:
+                        # What the callback returned was cancelled (e.g. a pause that was called off by a later play
+                        # or kill). This is not an ``Exception``, so it would not be captured: cancel the reply too,
+                        # as for a direct caller, instead of leaving the remote caller hanging
+                        kiwi_future.cancel()
+                        raise
 
                     kiwi_future.set_result(result)
 
